@@ -295,6 +295,71 @@ impl Check for C12 {
             }
             Err(e) => viol!("stream-context-rejected", "StreamContext::from rejected valid filters: {}", e),
         }
+        // (d) the same index for a one-time query whose window end is reached in a later hand-over, and is enlarged
+        // afterwards: kept + dropped (= processed) never exceeds what was handed over, the kept positions are the
+        // rule's positions below the processed length (at most the window), and after the enlargement the rest follows
+        let n_rule = kept_set.iter().filter(|k| **k).count();
+        if n_rule > 0 {
+            let w = 1 + (c.sched.seed / 11) as usize % (n_rule + 1);
+            let body = format!(r#"{{"window":[0,{}],"filters":[{}]}}"#, w, c.filters.join(","));
+            if let Ok(mut sc) = StreamContext::from(&log, "query", &body) {
+                if sc.filters_active {
+                    let chunk = [1usize, 2, 7, 30, 64, 3_000_000][(c.sched.seed / 3 % 6) as usize];
+                    let n_parts = 1 + (c.sched.seed / 5 % 3) as usize;
+                    let mut cuts: Vec<usize> = (1..n_parts).map(|k| (c.sched.seed / (7 * k as u64)) as usize % (msgs.len() + 1)).collect();
+                    cuts.push(msgs.len());
+                    cuts.sort();
+                    let check = |sc: &StreamContext, avail: usize, what: &str| -> Result<(), Violation> {
+                        let p = sc.all_msgs_last_processed_len;
+                        if p > avail {
+                            viol!("query-index-counts", "{}: {} messages accounted for (kept + dropped) but only {} received; window end {}, chunk {}, filters {:?}", what, p, avail, sc.msgs_to_send.end, chunk, c.filters);
+                        }
+                        let want: Vec<usize> = (0..p).filter(|i| kept_set[*i]).collect();
+                        if sc.filtered_msgs != want {
+                            viol!("query-index-rule", "{}: query index holds {} positions ({:?}...) but the rule keeps {} below the processed length {} ({:?}...); window end {}, chunk {}, filters {:?}", what, sc.filtered_msgs.len(), &sc.filtered_msgs[..std::cmp::min(6, sc.filtered_msgs.len())], want.len(), p, &want[..std::cmp::min(6, want.len())], sc.msgs_to_send.end, chunk, c.filters);
+                        }
+                        Ok(())
+                    };
+                    let mut guard = 0;
+                    for (ci, avail) in cuts.iter().copied().enumerate() {
+                        loop {
+                            let done = sc.all_msgs_last_processed_len >= avail || sc.filtered_msgs.len() >= sc.msgs_to_send.end;
+                            if done {
+                                break;
+                            }
+                            let last = std::cmp::min(sc.all_msgs_last_processed_len, avail);
+                            process_stream_new_msgs(&mut sc, last, &msgs[last..avail], chunk);
+                            check(&sc, avail, &format!("query, hand-over {}", ci))?;
+                            guard += 1;
+                            if guard > 3 * msgs.len() + 30 {
+                                viol!("stream-index-no-progress", "query index made no progress: processed {} of {} (chunk {})", sc.all_msgs_last_processed_len, avail, chunk);
+                            }
+                        }
+                    }
+                    if sc.filtered_msgs.len() != std::cmp::min(w, n_rule) {
+                        viol!("query-index-rule", "query with window end {} over {} matching messages collected {}", w, n_rule, sc.filtered_msgs.len());
+                    }
+                    // the client enlarges the window: the search goes on where it stopped
+                    sc.msgs_to_send.end = msgs.len() + 10;
+                    loop {
+                        if sc.all_msgs_last_processed_len >= msgs.len() {
+                            break;
+                        }
+                        let last = sc.all_msgs_last_processed_len;
+                        process_stream_new_msgs(&mut sc, last, &msgs[last..], chunk);
+                        check(&sc, msgs.len(), "query after the window was enlarged")?;
+                        guard += 1;
+                        if guard > 6 * msgs.len() + 60 {
+                            viol!("stream-index-no-progress", "query index made no progress after the window was enlarged: processed {} of {} (chunk {})", sc.all_msgs_last_processed_len, msgs.len(), chunk);
+                        }
+                    }
+                    if sc.filtered_msgs.len() != n_rule {
+                        viol!("query-index-rule", "query after the window was enlarged holds {} positions, the rule keeps {}", sc.filtered_msgs.len(), n_rule);
+                    }
+                    ctx.probe("query_index_compared");
+                }
+            }
+        }
         // (a) the stream filter stage as a thread between bounded channels
         let res = sh::slot((Vec::<DltMessage>::new(), None::<Result<(usize, usize), String>>, 0usize));
         let res2 = res.clone();
@@ -421,7 +486,7 @@ impl Check for C12 {
         out
     }
     fn rule() -> &'static str {
-        "one run = a filter set of 0-6 generated filters (positive/negative/marker/event, enabled or not, negated or not, overlapping ECU/APID/CTID literal+regex, level bounds, payload text/regex with case flag, message type) x a simulated message stream (<= 200 messages); the real stream filter stage runs as a shuttle thread between bounded channels (capacity and pacing knobs, consumer drop) and the real set matcher runs on the set StreamContext::from builds, and the server's incremental stream index (process_stream_new_msgs, chunk sizes 1..3M, one or two hand-overs) is built over the same messages; in a third of the runs the export plugin is configured with the same set (half of these with a seed-chosen subset of the detected lifecycles as lifecyclesToKeep) and its export file is compared; both are compared with the stated combination rule applied to the real per-filter verdicts; non-trivial = the set keeps some and drops some messages; distinct = hash of (filters, #messages, schedule seed)"
+        "one run = a filter set of 0-6 generated filters (positive/negative/marker/event, enabled or not, negated or not, overlapping ECU/APID/CTID literal+regex, level bounds, payload text/regex with case flag, message type) x a simulated message stream (<= 200 messages); the real stream filter stage runs as a shuttle thread between bounded channels (capacity and pacing knobs, consumer drop) and the real set matcher runs on the set StreamContext::from builds, and the server's incremental stream index (process_stream_new_msgs, chunk sizes 1..3M, one or two hand-overs) is built over the same messages, once as a stream and once as a one-time query whose window end (1..matching+1) is reached in an earlier or later hand-over and is enlarged afterwards (kept + dropped never above the number handed over, kept positions = the rule's positions below the processed length); in a third of the runs the export plugin is configured with the same set (half of these with a seed-chosen subset of the detected lifecycles as lifecyclesToKeep) and its export file is compared; both are compared with the stated combination rule applied to the real per-filter verdicts; non-trivial = the set keeps some and drops some messages; distinct = hash of (filters, #messages, schedule seed)"
     }
     fn assumptions() -> Vec<&'static str> {
         vec!["per-filter verdicts come from the real Filter::matches (its semantics belong to C11, which is not applicable to this technique); only the combination rule, order preservation and the counters are decided here"]
@@ -433,6 +498,6 @@ impl Check for C12 {
         vec!["producer/consumer threads", "scheduler and channels (shuttle + seam)", "message generator"]
     }
     fn required_reach() -> Vec<&'static str> {
-        vec!["set_has_positive", "set_has_negative", "set_has_event", "set_has_marker", "set_has_disabled", "consumer_disappears", "try_send_full", "stream_index_compared", "export_plugin_files_compared", "export_with_lifecycles_to_keep"]
+        vec!["set_has_positive", "set_has_negative", "set_has_event", "set_has_marker", "set_has_disabled", "consumer_disappears", "try_send_full", "stream_index_compared", "query_index_compared", "export_plugin_files_compared", "export_with_lifecycles_to_keep"]
     }
 }
